@@ -18,7 +18,7 @@
 //! `linfa-hierarchical` implements agglomerative hierarchical clustering with support of the
 //! [kodama](https://docs.rs/kodama/0.2.3/kodama/) crate.
 
-use std::collections::HashMap;
+use std::collections::BTreeMap;
 
 use kodama::linkage;
 pub use kodama::Method;
@@ -139,7 +139,7 @@ impl<F: Float> Transformer<Kernel<F>, DatasetBase<Kernel<F>, Vec<usize>>>
         // at the beginning every node is in its own cluster
         let mut clusters = (0..num_observations)
             .map(|x| (x, vec![x]))
-            .collect::<HashMap<_, _>>();
+            .collect::<BTreeMap<_, _>>();
 
         // counter for new clusters, which are formed as unions of previous ones
         let mut ct = num_observations;
